@@ -256,7 +256,7 @@ def run(prop, tier, seed, replay=None):
 
     byid = {r["id"]: r for r in results}
     nontrivial = set()
-    n_sub = n_sub_reject = 0
+    n_sub = n_sub_reject = n_inc = 0
     fam_count, class_count = {}, {}
     for c in chosen:
         r = byid[c["id"]]
@@ -266,11 +266,13 @@ def run(prop, tier, seed, replay=None):
         must_fail = (not c["exp"]["complete"]) and any(row["cs"] for row in c["exp"]["sat"])
         if selected or must_fail or r.get("real") == "panic":
             nontrivial.add(canonical(c))
-        if r.get("real") == "ok":
-            for s in c["subs"]:
+        for s in c["subs"]:
+            independent = s["mut"] == "incomplete" and s.get("ek") != "partial-vp"
+            if r.get("real") == "ok" or independent:
                 if s["mut"] != "none":
                     n_sub += 1
                     n_sub_reject += s["must"] == "reject"
+                    n_inc += s["mut"] == "incomplete"
                     nontrivial.add(canonical(c) + json.dumps(s, sort_keys=True))
     samples, seen = [], set()
     for c in chosen:
@@ -282,6 +284,7 @@ def run(prop, tier, seed, replay=None):
                cases_enumerated_by_tlc=len(cases), cases_replayed_on_real_code=len(chosen), real_calls=stats["calls"],
                cases_by_family=fam_count, cases_by_predicted_deviation_class=class_count, real_match_outcomes=stats["real"],
                mutated_submissions_validated=n_sub, mutated_submissions_that_must_be_rejected=n_sub_reject,
+               of_which_over_incomplete_envelopes=n_inc,
                cases_with_violation=stats["viol_cases"], drift_cases=stats["drift_cases"], models=models, action_coverage_mini_family=cover,
                known_findings_seen=sorted(rep.known),
                rule="TLC enumerates every (definition, wallet) pair of four families of MCPex.tla (filters: every filter kind x value kind x "
